@@ -25,6 +25,7 @@ func apiPrograms(seed int64, n int, profiles []string, tweak func(i int, cfg *ge
 			Reopen:   0.15,
 			Rollback: 0.2,
 			ROProbe:  0.15,
+			Managed:  0.3, // a third of the write transactions run inside DB.Update (body returns nil / an error / panics)
 		}
 		cfg.Opts.Freelist = backends[(i/(len(profiles)*len(pageSizes)))%2]
 		cfg.Opts.NoFreelistSync = (i/(len(profiles)*len(pageSizes)*2))%2 == 1
